@@ -332,3 +332,58 @@ package process
 //@   loop[C14] 1 invariant keptCastForm(Form(p))
 //@   loop[C14] 1 invariant keptShiftForm(Form(p))
 //@   loop[C14] 1 invariant keptDropForm(Form(p))
+
+// ---------------------------------------------------------------------------------------------
+// Free names of the terms without continuation (the only terms that may be spawned by `new`), as a set of identifiers.
+//@ macro setIf(S Set[string], c bool, x string) Set[string] = ite(c, add(S, x), S)
+//@ spec identsOf(ps []Name, n int) Set[string] = ite(n <= 0, emptyStrSet, setIf(identsOf(ps, n - 1), !ps[n-1].IsSelf, ps[n-1].Ident))
+//@ macro axiomatic(f Form) bool = is(f, SendForm) || is(f, SelectForm) || is(f, CloseForm) || is(f, ForwardForm) || is(f, CallForm) || is(f, CastForm)
+//@ macro fnIdents(f Form) Set[string] =
+//@    ite(is(f, SendForm), setIf(setIf(setIf(emptyStrSet, !SendForm(f).to_c.IsSelf, SendForm(f).to_c.Ident), !SendForm(f).payload_c.IsSelf, SendForm(f).payload_c.Ident), !SendForm(f).continuation_c.IsSelf, SendForm(f).continuation_c.Ident),
+//@    ite(is(f, SelectForm), setIf(setIf(emptyStrSet, !SelectForm(f).to_c.IsSelf, SelectForm(f).to_c.Ident), !SelectForm(f).continuation_c.IsSelf, SelectForm(f).continuation_c.Ident),
+//@    ite(is(f, CloseForm), setIf(emptyStrSet, !CloseForm(f).from_c.IsSelf, CloseForm(f).from_c.Ident),
+//@    ite(is(f, ForwardForm), setIf(setIf(emptyStrSet, !ForwardForm(f).to_c.IsSelf, ForwardForm(f).to_c.Ident), !ForwardForm(f).from_c.IsSelf, ForwardForm(f).from_c.Ident),
+//@    ite(is(f, CastForm), setIf(setIf(emptyStrSet, !CastForm(f).to_c.IsSelf, CastForm(f).to_c.Ident), !CastForm(f).continuation_c.IsSelf, CastForm(f).continuation_c.Ident),
+//@        identsOf(CallForm(f).parameters, len(CallForm(f).parameters)))))))
+
+//@ macro listIs(ns []Name, S Set[string]) bool = (forall k int :: 0 <= k && k < len(ns) ==> !ns[k].IsSelf && S[ns[k].Ident]) && (forall x string :: S[x] ==> (exists k int :: 0 <= k && k < len(ns) && ns[k].Ident == x))
+
+//@ contract interface Form.FreeNames(self)
+//@   ensures C14.fnAxiom: axiomatic(self) ==> listIs(result, fnIdents(self))
+//@   ensures C14.fnUnbound: axiomatic(self) && uninit(self) ==> (forall k int :: 0 <= k && k < len(result) ==> result[k].Channel == nil)
+//@   pure
+
+//@ contract (*CallForm).FreeNames
+//@   loop 1 invariant (forall k int :: 0 <= k && k < len(fn) ==> !fn[k].IsSelf && identsOf(p.parameters, idx + 1)[fn[k].Ident])
+//@   loop 1 invariant (forall x string :: identsOf(p.parameters, idx + 1)[x] ==> (exists k int :: 0 <= k && k < len(fn) && fn[k].Ident == x))
+//@   loop 1 invariant (forall k int :: 0 <= k && k < len(fn) ==> (exists j int :: 0 <= j && j <= idx && fn[k] == p.parameters[j]))
+
+//@ contract FormHasContinuation
+//@   ensures C05.hasCont: result == !axiomatic(form)
+//@   pure
+
+// ---------------------------------------------------------------------------------------------
+// Context helpers used by the cut rule.
+
+//@ contract produceNameTypesCtx
+//@   ensures C05.produce: result != nil && fresh(result) && (forall k int :: 0 <= k && k < len(names) ==> has(result, names[k].Ident))
+//@   ensures C05.produceFrom: forall x string :: has(result, x) ==> (exists k int :: 0 <= k && k < len(names) && names[k].Ident == x && result[x].Name == names[k] && result[x].Type == names[k].Type)
+//@   loop 1 invariant namesTypesCtx != nil && (forall k int :: 0 <= k && k <= idx ==> has(namesTypesCtx, names[k].Ident))
+//@   loop 1 invariant (forall x string :: has(namesTypesCtx, x) ==> (exists k int :: 0 <= k && k <= idx && names[k].Ident == x && namesTypesCtx[x].Name == names[k] && namesTypesCtx[x].Type == names[k].Type))
+
+//@ contract (NamesTypesCtx).getNames
+//@   ensures C05.getNames: forall k int :: 0 <= k && k < len(result) ==> (exists x string :: has(namesTypesCtx, x) && result[k] == namesTypesCtx[x].Name)
+//@   loop 1 invariant (forall k int :: 0 <= k && k < len(result) ==> (exists x string :: has(namesTypesCtx, x) && result[k] == namesTypesCtx[x].Name))
+//@   pure
+
+//@ macro skipArg(n Name, psn *Name) bool = n.IsSelf || (psn != nil && psn.Ident == n.Ident)
+//@ contract splitGammaCtx
+//@   ensures C05.splitSame: result2 == nil ==> result1 == gammaNameTypesCtx && result0 != nil && fresh(result0)
+//@   ensures C05.splitLeft: result2 == nil ==> (forall x string :: has(result0, x) ==> old(dom(gammaNameTypesCtx))[x] && (exists k int :: 0 <= k && k < len(names) && names[k].Ident == x && !skipArg(names[k], providerShadowName)))
+//@   ensures C05.splitRight: result2 == nil ==> (forall x string :: has(gammaNameTypesCtx, x) <==> (old(dom(gammaNameTypesCtx))[x] && !has(result0, x)))
+//@   ensures C05.splitAll: result2 == nil ==> (forall k int :: 0 <= k && k < len(names) && !skipArg(names[k], providerShadowName) ==> has(result0, names[k].Ident))
+//@   loop 1 invariant (forall x string :: has(gammaNameTypesCtx, x) ==> old(dom(gammaNameTypesCtx))[x])
+//@   loop 1 invariant (forall k int :: 0 <= k && k < len(namesFound) ==> old(dom(gammaNameTypesCtx))[namesFound[k].Ident] && !has(gammaNameTypesCtx, namesFound[k].Ident) &&
+//@        (exists j int :: 0 <= j && j <= idx && names[j].Ident == namesFound[k].Ident && !skipArg(names[j], providerShadowName)))
+//@   loop 1 invariant (forall x string :: old(dom(gammaNameTypesCtx))[x] ==> has(gammaNameTypesCtx, x) || (exists k int :: 0 <= k && k < len(namesFound) && namesFound[k].Ident == x))
+//@   loop 1 invariant (forall j int :: 0 <= j && j <= idx && !skipArg(names[j], providerShadowName) ==> (exists k int :: 0 <= k && k < len(namesFound) && namesFound[k].Ident == names[j].Ident))
